@@ -616,7 +616,7 @@ def compare_impulse(resps, res, ndim):
 
 def case_signature(case, obs):
     ft = obs.get('fft')
-    sizes = (tuple(ft.internal_shape), tuple(ft.shape_out)) if ft is not None else (case['out']['kind'], case.get('in_kind'))
+    sizes = (tuple(int(v) for v in ft.internal_shape), tuple(int(v) for v in ft.shape_out)) if ft is not None else (case.get('out', {}).get('kind'), case.get('in_kind'))
     return (case['family'], tuple(case['N']), sizes, tuple(case['tensor']), case['dtype'], case['field']['kind'],
             tuple(s != 0 for s in case['shift']))
 
@@ -667,7 +667,7 @@ def run(ctx, prop='C01'):
                         'BLAS gemm and np.dot compute matrix products', 'x86 longdouble (64-bit mantissa) reference sums are exact to 1e-15 relative',
                         'the dyadic grid parameters generated are exactly representable, so the model sees the rationals the code sees']
     thorough = ctx.tier == 'thorough'
-    n = ctx.scale(140, 1500)
+    n = ctx.scale(140, 600)
     cases = [dict(c) for c in DIRECTED]
     for i in range(n):
         cases.append(gen_case(ctx.rng, big=thorough and i % 4 == 0))
